@@ -32,6 +32,7 @@ class Recorder:
         self._shape = shape
         self._rng = rng or random.Random(0)
         self._opaque = opaque or {}
+        self._env = {}          # names the scripted expressions may use (set by the harness: sidecar globals, ghosts)
         self.__dict__.update(fields)
 
     def __getattr__(self, name):
@@ -44,11 +45,20 @@ class Recorder:
 
         def run(*args, **kwargs):
             self.calls.append((name, tuple(args)))
-            env = {"self": self, "args": tuple(args), "kwargs": kwargs}
+            import types
+            env = dict(self._env)
+            env.update({"self": self, "args": tuple(args), "kwargs": kwargs,
+                        "pre": types.SimpleNamespace(**{k: v for k, v in self.__dict__.items() if not k.startswith("_")})})
+            if spec.get("fresh") is not None:
+                env["fresh"] = to_native(spec["fresh"], gen_json(spec["fresh"], self._rng), self._opaque)
+            if spec.get("raise_before_effects"):
+                for exc in spec.get("raises", []):
+                    if self._rng.random() < 0.15:
+                        raise _exception_by_name(exc)
             new_vals = {f: eval(e, dict(env)) for f, e in spec.get("effects", {}).items()}  # pylint: disable=eval-used
             for f, v in new_vals.items():
                 setattr(self, f, v)
-            for exc in spec.get("raises", []):
+            for exc in ([] if spec.get("raise_before_effects") else spec.get("raises", [])):
                 if self._rng.random() < 0.15:
                     raise _exception_by_name(exc)
             rs = spec.get("returns")
@@ -59,6 +69,8 @@ class Recorder:
             else:
                 res = to_native(rs, gen_json(rs, self._rng), self._opaque)
             self.results.append(res)
+            if "last_result" in self.__dict__:
+                self.last_result = res
             return res
         if spec.get("is_async"):
             async def arun(*args, **kwargs):
@@ -129,9 +141,21 @@ def _exception_by_name(name):
     if name == "CancelledError":
         return asyncio.CancelledError()
     cls = getattr(builtins, name, None)
-    if cls is None:
-        cls = type(name, (Exception,), {})
-    return cls(f"scripted {name}")
+    if cls is not None:
+        return cls(f"scripted {name}")
+    try:
+        if name in ("ReceiverStoppedError", "ReceiverError"):
+            import frequenz.channels as fc
+            return getattr(fc, name)(None) if name == "ReceiverStoppedError" else fc.ReceiverError("scripted", None)
+        if name in ("ApiClientError", "OperationOutOfRange"):
+            import frequenz.client.base.exception as fe
+            cls2 = getattr(fe, name)
+            obj = cls2.__new__(cls2)
+            Exception.__init__(obj, f"scripted {name}")
+            return obj
+    except Exception:  # pylint: disable=broad-except
+        pass
+    return type(name, (Exception,), {})(f"scripted {name}")
 
 
 def num(j):
